@@ -15,7 +15,7 @@ ASSUMPTIONS = [
     "rotation / mirror statements are for uniform direction grids (N*delta = 360); on non-uniform grids the forward-difference bin "
     "widths are not mirror-symmetric and the property text restricts itself to uniform grids",
 ]
-TRUSTED = ["Interval tactic (coq-interval) for the closed inequality sqrt 2 * 180 / PI < 81.03"]
+TRUSTED = []
 
 NAN = B.NAN
 INF = B.INF
@@ -537,7 +537,7 @@ def replay(ctx, obj):
 READY = False
 LEVEL_TEXT = ("Theorems (Coq, all sizes): atan2 (built from atan by quadrant) is the polar angle in (-pi, pi]; mean/peak/per-frequency direction "
               "and spread are atan2(B,A) and sqrt(2-2 sqrt(A^2+B^2)) in degrees of the energy-weighted band averages (peak variants: moments at "
-              "the peak index); directions lie in (-180,180] for a non-zero vector, spreads in [0, sqrt2*180/pi] (< 81.03, interval arithmetic) when "
+              "the peak index); directions lie in (-180,180] for a non-zero vector, spreads in [0, sqrt2*180/pi] (< 81.03, from Machin's formula and the alternating series of atan) when "
               "A^2+B^2 <= 1; on every uniform grid (any start angle, stored modulo 360 or not, any N with |360/N| < 180) and every k <= N, rotating "
               "the density by k bins leaves e(f), m0, Hm0, Tm01, Tm02, peak index/frequency and all spreads unchanged, rotates (a1,b1) and the band "
               "means by alpha = k*360/N and (a2,b2) by 2 alpha, and shifts every direction (per frequency, peak, band mean) by alpha in vector form "
@@ -547,5 +547,5 @@ LEVEL_TEXT = ("Theorems (Coq, all sizes): atan2 (built from atan by quadrant) is
 LEVEL_NOTE = ("Direction statements carry the premise that the moment vector is not (0,0) (atan2(0,0)=0 does not rotate). Rotation/mirror theorems "
               "are about 2D spectra (1D spectra have no direction axis to rotate). Float rounding, numpy.arctan2 and xarray's vectorised "
               "indexing at the peak are validated by execution only.")
-TECHNIQUE = "Coq proof (cyclic re-indexing + angle addition, atan2 by quadrant, interval arithmetic) + extracted-model correspondence + relation oracles on the implementation"
+TECHNIQUE = "Coq proof (cyclic re-indexing + angle addition, atan2 by quadrant, Machin bound for PI) + extracted-model correspondence + relation oracles on the implementation"
 DESIGN_REF = "DESIGN.md section 5 C03"
